@@ -29,7 +29,9 @@ RULE = (
     "other <=2-op bodies, every 2nd extsi,extsi,muli,addi wiring; (b) random bodies: the canonical "
     "bodies of mul/add/mac/mac+extsi/qmac over all width combinations, 1-3 mutations of them (operand swap, rewiring to "
     "another value of the same type, yield of another value), random wirings of the same op-kind sequences, fully random "
-    "bodies of <=6 ops over i8/i16/i32/i64; (c) kernel-bodied generics (mul/add/mac/qmac in documented and mixed width "
+    "bodies of <=6 ops over i8/i16/i32/i64; (b2) modules of 2-4 generics handled by one application of the pass: a canonical "
+    "body with siblings of the same argument types and op-kind sequence but another wiring, single mutations, repeats and "
+    "bodies of other kernels, canonical first / last / shuffled; (c) kernel-bodied generics (mul/add/mac/qmac in documented and mixed width "
     "combinations, kernel.rescale with zero points, multipliers, shift 0..62, clamps, double_round, per-channel arrays; "
     "memref and tensor form); (d) modules of 1-4 generics (declared, near-declared and arbitrary kernel/type combinations, "
     "non-kernel and fused bodies, pre-dispatched ops, static and dynamic shapes) with an ordered subset of snax_alu, "
@@ -66,6 +68,8 @@ FLOORS = {
         "distinct_nontrivial": 1200,
         "recognition_bodies_checked": 2500,
         "recognition_vectors_compared": 15000,
+        "recognition_modules_sibling_after_canonical": 300,
+        "recognition_modules_sibling_before_canonical": 60,
         "expansion_bodies_checked": 500,
         "expansion_vectors_compared": 60000,
         "rescale_vectors_judged": 15000,
@@ -77,6 +81,8 @@ FLOORS = {
         "distinct_nontrivial": 20000,
         "recognition_bodies_checked": 50000,
         "recognition_vectors_compared": 500000,
+        "recognition_modules_sibling_after_canonical": 15000,
+        "recognition_modules_sibling_before_canonical": 3000,
         "expansion_bodies_checked": 15000,
         "expansion_vectors_compared": 2000000,
         "rescale_vectors_judged": 400000,
@@ -778,6 +784,28 @@ def run_shard(seed, shard, n_cases, tier):
         record(res, vs)
         if shard == 0 and i < 2:
             R.sample(res, {"monitor": "recognition", "family": c["family"], "labels": c["labels"], "text": text})
+
+    # (b2) several generics in one module: a canonical body with siblings of the same types and op kinds but another wiring (the pass
+    # is applied once to the whole module, so anything it remembers from one generic can leak into the next); own generator
+    # stream so the other families keep their cases
+    rng_m = random.Random((seed << 8) ^ 0x18B2)
+    for i in range(max(8, n_cases // 3)):
+        c = G.gen_recognition_module(rng_m)
+        text = G.render_recognition_module(c, "tensor" if rng_m.random() < 0.15 else "memref")
+        fams = [f.split(":")[0] for f, _ in c["members"]]
+        R.bump(res, "family:module")
+        R.bump(res, "recognition_modules_with_several_generics")
+        if any(f in ("sibling-wiring", "sibling-mutated") for f in fams):
+            R.bump(res, "recognition_modules_canonical_with_sibling_wiring")
+            ci = fams.index("canonical")
+            if any(f in ("sibling-wiring", "sibling-mutated") for f in fams[ci + 1:]):
+                R.bump(res, "recognition_modules_sibling_after_canonical")
+            if any(f in ("sibling-wiring", "sibling-mutated") for f in fams[:ci]):
+                R.bump(res, "recognition_modules_sibling_before_canonical")
+        R.seen(res, "module_member_orders", fams)
+        record(res, check_recognition(text, rng_m.getrandbits(32), res, family=c["family"], n_random=80, max_corner=200))
+        if shard == 0 and i < 1:
+            R.sample(res, {"monitor": "recognition", "family": c["family"], "members": fams, "text": text})
 
     # (c) expansion
     for i in range(n_cases // 2):
